@@ -208,8 +208,30 @@ func ruleErrorStatus(c *Ctx) {
 		return
 	}
 	fCode := p.Field("reserr.Error.Code")
-	for _, code := range sortedKeys(strKeys(errorStatusTable)) {
-		want := errorStatusTable[code]
+	// the table is closed: every code the function tells apart that is not in the property's table, and any
+	// code it does not mention, maps to 400
+	codes := strKeys(errorStatusTable)
+	codes["system.someOtherCode"] = true
+	for _, g := range p.withHelpers(fn) {
+		for _, in := range instrsOf(g) {
+			b, ok := in.(*ssa.BinOp)
+			if !ok || (b.Op != token.EQL && b.Op != token.NEQ) {
+				continue
+			}
+			for _, pair := range [][2]ssa.Value{{b.X, b.Y}, {b.Y, b.X}} {
+				if s, isS := constString(pair[1]); isS {
+					if f, _ := fieldLoad(pair[0]); f == fCode {
+						codes[s] = true
+					}
+				}
+			}
+		}
+	}
+	for _, code := range sortedKeys(codes) {
+		want, listed := errorStatusTable[code]
+		if !listed {
+			want = 400
+		}
 		c.inst(1)
 		sp := &Spec{}
 		sp.Eval = func(t *Tracer, fr *Frame, cond ssa.Value) (bool, bool) {
